@@ -1,4 +1,4 @@
-import PtnModel.Proofs.BipMatching
+import PtnModel.Proofs.BipCover
 import PtnModel.Proofs.BipExamples
 /-!
 # Property C18 (bipartite matching / vertex cover)
@@ -65,5 +65,44 @@ theorem matching_valid {g : BGraph} (hg : g.WF) {m : List (Nat × Nat)} (h : hop
 
 /-- non-vacuity of `matching_valid` (a graph on which the first phase re-matches a vertex) -/
 example : exH.WF ∧ hopcroftKarp exH = .ok [(0, 1), (1, 0), (2, 2)] := ⟨exH_wf, exH_hk⟩
+
+/-- (c) If `minimumVertexCover` succeeds on a well-formed graph, the returned lists are in range and
+duplicate-free, they cover every edge of the graph, and their total number equals the size of the
+matching returned by `hopcroftKarp`. -/
+theorem cover_valid_and_size {g : BGraph} (hg : g.WF) {uc vc : List Nat}
+    (h : minimumVertexCover g = .ok (uc, vc)) :
+    ∃ m, hopcroftKarp g = .ok m ∧ (∀ u ∈ uc, u < g.numU) ∧ (∀ v ∈ vc, v < g.numV) ∧
+      uc.Nodup ∧ vc.Nodup ∧ (∀ u v, v ∈ g.adjU.getD u [] → u ∈ uc ∨ v ∈ vc) ∧
+      uc.length + vc.length = m.length :=
+  mvc_spec hg h
+
+/-- non-vacuity of `cover_valid_and_size` and `cover_minimum_matching_maximum`
+(a graph with an unmatched `U`-vertex, so that the exploration loop runs) -/
+example : exK.WF ∧ minimumVertexCover exK = .ok ([2], [0]) := ⟨exK_wf, exK_mvc⟩
+
+/-- (d) Whenever `minimumVertexCover` succeeds on a well-formed graph, the returned cover is a
+minimum vertex cover and the matching of `hopcroftKarp` is a maximum matching (and both have the
+same size: Koenig). -/
+theorem cover_minimum_matching_maximum {g : BGraph} (hg : g.WF) {uc vc : List Nat}
+    (h : minimumVertexCover g = .ok (uc, vc)) :
+    ∃ m, hopcroftKarp g = .ok m ∧ IsMatching g m ∧ IsCover g uc vc ∧ uc.length + vc.length = m.length ∧
+      (∀ m', IsMatching g m' → m'.length ≤ m.length) ∧
+      (∀ uc' vc', IsCover g uc' vc' → uc.length + vc.length ≤ uc'.length + vc'.length) := by
+  obtain ⟨m, hk, _, _, _, _, hc, hlen⟩ := mvc_spec hg h
+  have hm := hopcroftKarp_isMatching hg hk
+  obtain ⟨h1, h2⟩ := weak_duality_optimal hm hc hlen
+  exact ⟨m, hk, hm, hc, hlen, h1, h2⟩
+
+/-- (e) On a well-formed graph the exploration `_explore_alternating_paths` started at an in-range
+vertex with empty visited lists and fuel `exploreFuel g` always finishes (in particular it never
+returns `.error .fuel`; `explore` has no other error), for every list `m` of "matching" pairs. -/
+theorem explore_total {g : BGraph} (hg : g.WF) (m : List (Nat × Nat)) {u : Nat} (hu : u < g.numU) :
+    ∃ st, explore g m (exploreFuel g) u ([], []) = .ok st :=
+  explore_ok hg m hu
+
+/-- non-vacuity of `explore_total` -/
+example : exK.WF ∧ 1 < exK.numU ∧
+    explore exK [(0, 0), (2, 1)] (exploreFuel exK) 1 ([], []) = .ok ([1, 0], [0]) :=
+  ⟨exK_wf, by decide, exK_explore⟩
 
 end Ptn.C18
